@@ -103,16 +103,20 @@ def _place(g: DocGen, s: dict, kind: str, pos: str) -> tuple[dict, Any]:
     return {"type": "array", "items": ref}, lambda v: [v]
 
 
-def nullable_doc(rng: Rng, i: int, plain_names: bool = False) -> tuple[dict, set[str], list]:
+MODELLED_NULLABLE_KINDS = ("object_free", "object_map", "integer", "number", "string", "boolean")
+
+
+def nullable_doc(rng: Rng, i: int, plain_names: bool = False, kinds: tuple = NULLABLE_KINDS) -> tuple[dict, set[str], list]:
     """document i of the family, its features and the instances that carry `null` at one place each
     (candidates: the caller keeps those that jsonschema confirms). The (kind, position) pairs are enumerated
-    systematically: 13 consecutive documents cover all 64 of them; every sixth document is a root position."""
+    systematically: 13 consecutive documents cover all 64 of them; every sixth document is a root position.
+    `kinds`: the types to draw from (`MODELLED_NULLABLE_KINDS`: those the Lean model covers)."""
     g = DocGen(rng, GenCfg(max_depth=1, alias_names=not plain_names))
     r = g.rng
     feats: set[str] = set()
     if i % 6 == 5:
         # the nullable schema is the whole document, or the item schema of a document that is an array
-        kind = NULLABLE_KINDS[(i // 6) % len(NULLABLE_KINDS)]
+        kind = kinds[(i // 6) % len(kinds)]
         pos = ROOT_POSITIONS[(i // 48) % 2] if i >= 48 else r.choice(list(ROOT_POSITIONS))
         s = nullable_schema(g, kind)
         feats.add(f"nullable:{kind}@{pos}")
@@ -128,8 +132,8 @@ def nullable_doc(rng: Rng, i: int, plain_names: bool = False) -> tuple[dict, set
     wraps: dict[str, Any] = {}
     leaf: dict[str, dict] = {}
     for j, nm in enumerate(names):
-        c = (((i - i // 6) * n + j) * 37) % 64
-        kind, pos = NULLABLE_KINDS[c % 8], NULLABLE_POSITIONS[c // 8]
+        c = (((i - i // 6) * n + j) * 37) % (8 * len(kinds))
+        kind, pos = kinds[c % len(kinds)], NULLABLE_POSITIONS[c // len(kinds)]
         s = nullable_schema(g, kind)
         props[nm], wraps[nm] = _place(g, s, kind, pos)
         leaf[nm] = s
